@@ -450,34 +450,25 @@ class Engine:
         return False
 
 
-def run(repo, res, tier):
-    res.rule("CACHE-DISCOVERY", "memo fields discovered (cached_property / hasattr-memo / is-None-memo) plus the frozen eager table", 8)
-    res.rule("CACHE-FRESH", "in-scope mutator: after every write of a dependency a refresh follows on every path to an exit", 25)
-    res.rule("HISTORY", "update_initial_state appends all history lists before replacing the initial values and truncates all with the same slice under one guard", 10)
+def setup(repo, res):
+    """(engine, caches, scope, scope_ids) — shared with C04 / C05 / C17, which claim the freshness of the caches
+    their own property reads"""
     eng = Engine(repo, res)
-
     caches = discover(repo)
     for rel, cn, slot, deps, why in EAGER:
         cls = repo.cls(rel, cn)
         # anchor: the slot must still be assigned somewhere in the class
-        assigned = any(
-            isinstance(n, ast.Attribute) and n.attr == slot and isinstance(n.ctx, ast.Store)
-            for n in ast.walk(cls.node)
-        )
+        assigned = any(isinstance(n, ast.Attribute) and n.attr == slot and isinstance(n.ctx, ast.Store) for n in ast.walk(cls.node))
         if not assigned:
             raise AnalysisError("eager cache %s.%s is no longer assigned anywhere in its class" % (cn, slot))
         c = Cache(cls, slot, "eager", deps, why)
         if slot == "_buffered_polygons":
             c.kind = "mirror"
         caches.append(c)
-    for c in caches:
-        res.ok("CACHE-DISCOVERY", "%s (%s) deps=%s" % (c.name, c.kind, sorted(c.deps)))
     expected = {"TrajectoryPrediction.occupancy_set", "TrafficLightCycle._cycle_init_timesteps", "Lanelet._distance", "Lanelet._inner_distance", "Rectangle._vertices"}
     have = {c.name for c in caches}
     if not expected <= have:
         raise AnalysisError("cache discovery lost known caches: %s" % sorted(expected - have))
-
-    # scope
     scope = []
     for rel, cn, mn, kind in SCOPE:
         cls = repo.cls(rel, cn)
@@ -491,9 +482,41 @@ def run(repo, res, tier):
         for c in m.classes.values():
             if "translate_rotate" in c.methods:
                 scope.append((c, FnKey(c, c.methods["translate_rotate"], m)))
-    scope_ids = {id(fk.fn) for _c, fk in scope}
     if sum(1 for _c, fk in scope if fk.fn.name == "translate_rotate") < 20:
         raise AnalysisError("fewer than 20 translate_rotate methods found")
+    return eng, caches, scope, {id(fk.fn) for _c, fk in scope}
+
+
+def verdicts(repo, res, want_cache=None, want_fn=None):
+    """[(cache, class, function key, verdict, finding or None)] for every (cache, in-scope mutator) pair selected"""
+    eng, caches, scope, _ids = setup(repo, res)
+    out = []
+    for cache in caches:
+        if want_cache is not None and not want_cache(cache):
+            continue
+        users = repo.subclasses(cache.cls)
+        for cls, fk in scope:
+            if cls not in users or (want_fn is not None and not want_fn(fk)):
+                continue
+            if (cache.cls.name, fk.fn.name, cache.slot) in INVARIANT:
+                continue
+            verdict, w, dirty_exits = eng.detail(cache, FnKey(cls, fk.fn, fk.mod, fk.kind))
+            f = None
+            if verdict == "DIRTY":
+                tok = sorted(dirty_exits[0][0])[0]
+                node = w.first_dirty.get(tok) or fk.fn
+                f = (fk.mod, node, "%s writes a dependency of %s (%s) without refreshing it" % (fk.name, cache.name, norm(node)[:80] if not isinstance(node, ast.FunctionDef) else fk.name))
+            out.append((cache, cls, fk, verdict, f))
+    return out
+
+
+def run(repo, res, tier):
+    res.rule("CACHE-DISCOVERY", "memo fields discovered (cached_property / hasattr-memo / is-None-memo) plus the frozen eager table", 8)
+    res.rule("CACHE-FRESH", "in-scope mutator: after every write of a dependency a refresh follows on every path to an exit", 25)
+    res.rule("HISTORY", "update_initial_state appends all history lists before replacing the initial values and truncates all with the same slice under one guard", 10)
+    eng, caches, scope, scope_ids = setup(repo, res)
+    for c in caches:
+        res.ok("CACHE-DISCOVERY", "%s (%s) deps=%s" % (c.name, c.kind, sorted(c.deps)))
 
     for cache in caches:
         users = repo.subclasses(cache.cls)
@@ -506,7 +529,6 @@ def run(repo, res, tier):
                 res.note("CACHE-FRESH accepted %s: %s" % (inst, INVARIANT[(cache.cls.name, fk.fn.name, cache.slot)]))
                 continue
             # analyse with the class the method is called on
-            k = FnKey(cls if fk.cls is None else fk.cls, fk.fn, fk.mod, fk.kind)
             verdict, w, dirty_exits = eng.detail(cache, FnKey(cls, fk.fn, fk.mod, fk.kind))
             if verdict == "DIRTY":
                 tok = sorted(dirty_exits[0][0])[0]
